@@ -59,11 +59,30 @@ def fq(h):
 # (environment model: the dat-file handle becomes an in-memory file).  Each pattern must match
 # exactly once, otherwise the check answers "inconclusive" (exit 2) instead of guessing.
 TRANSFORMS = {
+    "patch": [
+        ("use std::fs;\nuse std::fs::{File, OpenOptions, read, read_dir};\n",
+         "use crate::verif_support::memfs as fs;\nuse crate::verif_support::memfs::{File, OpenOptions, read, read_dir};\n"),
+        # logging gets an empty body (the tracing dispatcher is not the subject and is not encodable)
+        ("use tracing::{debug, warn};\n",
+         "macro_rules! debug { ($($t:tt)*) => {{}} }\nmacro_rules! warn { ($($t:tt)*) => {{}} }\n"),
+    ],
     "sqpack_data": [
         ("    file: std::fs::File,\n", "    file: crate::verif_support::memfile::MemFile,\n"),
         ("            file: std::fs::File::open(path).ok()?,\n", "            file: crate::verif_support::memfile::MemFile::open(path)?,\n"),
     ],
 }
+
+# dependency model for std's formatting engine (see check: apply_format_model): harness module -> source files whose
+# `format!(` calls are compiled through the model
+FORMAT_MODEL = {
+    "repository": ["src/repository.rs"],
+    "equipment": ["src/equipment.rs", "src/race.rs"],
+    "exd": ["src/exd.rs"],
+    "patch": ["src/patch.rs"],
+}
+FMT = ["core::fmt (format! engine) -> straight-line digit / literal emission (support/vfmt.rs); the format strings and argument "
+       "wiring are Physis's own; model compared with std::format! natively on every run (all u8/u16 values, 20 000 wide values, "
+       "every spec used)"]
 
 # dependency model (see check: patch_binrw): binrw's counted-vector reader without its integer fast paths
 PATCH_BINRW_COUNT = True
@@ -505,9 +524,24 @@ H("C03", "patch", "c03p_pipeline_witness", expect="witness-fail", unwind=10, bou
 for n in ("5f", "50", "legacy", "opaque"):
     H("C14", "mtrl", "c14_dye_table_kind_" + n, tier="thorough", unwind=40, timeout=1200, bounds="dye table kind for table_dimension_logs = " + n + ": Dawntrail = 32 rows / 128 bytes, legacy = 16 rows / 32 bytes, other = opaque / 0 bytes; all table bytes symbolic",
       encodes=["mtrl::parse_color_dye_table"], cbmc_args=FS256)
-H("C15", "repository", "c15_filenames_noloop_concrete", tier="thorough", unwind=4, timeout=1200, kani_args=["--no-assertion-reach-checks"],
-  bounds="0a/ex1/chunk2/ps3/dat3 (concrete) with unwind 4 and loop-free comparisons", encodes=["repository::Repository::index_filename", "repository::Repository::dat_filename", "alloc::fmt::format (real)"],
-  no_cover="fully concrete harness without assumptions")
+# C15 / C05: file names and game paths through the format! engine model (FORMAT_MODEL)
+for n in ("win32", "ps3", "ps4", "ps5", "lys"):
+    H("C15", "repository", "c15_filenames_all_" + n, unwind=24, timeout=600,
+      bounds="platform " + n + ": all 15 categories x expansions 0..9 x chunks 0..9 x data files 0..7 (symbolic): index / index2 / dat file names, exact text",
+      encodes=["repository::Repository::index_filename", "repository::Repository::index2_filename", "repository::Repository::dat_filename", "common::get_platform_string"],
+      stubs=FMT, cbmc_args=FS256)
+H("C15", "equipment", "c15_equipment_path_all", unwind=100, timeout=600, bounds="all ids 0..9999 x all valid (race, tribe, gender) x all 10 slots: exact path text",
+  encodes=["equipment::build_equipment_path", "race::get_race_id", "equipment::get_slot_abbreviation"], stubs=FMT, cbmc_args=FS256)
+H("C15", "equipment", "c15_character_path_all", unwind=100, timeout=600, bounds="all versions 0..9999 x all valid triples x all 5 character categories: exact path text",
+  encodes=["equipment::build_character_path", "race::get_race_id"], stubs=FMT, cbmc_args=FS256)
+H("C15", "equipment", "c15_skeleton_path_all", unwind=100, timeout=600, bounds="all valid triples: exact path text", encodes=["race::build_skeleton_path", "race::get_race_id"], stubs=FMT, cbmc_args=FS256)
+H("C15", "equipment", "c15_material_paths_all", unwind=100, timeout=600, bounds="six material path builders, all codes 0..9999 x 0..9999, concrete material name: exact path text",
+  encodes=["equipment::build_gear_material_path", "build_skin_material_path", "build_face_material_path", "build_hair_material_path", "build_ear_material_path", "build_tail_material_path"],
+  stubs=FMT, cbmc_args=FS256)
+H("C05", "exd", "c05_page_filename_ids_below_100000", unwind=100, timeout=900, bounds="all page start ids 0..99999 x all 8 languages (symbolic), concrete sheet name: exact file name text",
+  encodes=["exd::EXD::calculate_filename", "common::get_language_code"], stubs=FMT, cbmc_args=FS256)
+H("C05", "exd", "c05_page_filename_wide_ids", unwind=100, timeout=900, bounds="start ids 4294967295, 1000000000, 123456789 (concrete) x all 8 languages (symbolic)",
+  encodes=["exd::EXD::calculate_filename", "common::get_language_code"], stubs=FMT, cbmc_args=FS256)
 
 # VERIF_SEED-chosen extra shapes (gen/params.rs; the chosen values are copied into the evidence by the driver)
 H("C12", "sha1", "c12_sha1_padding_seeded_len", timeout=600, unwind=200, bounds="SHA-1 padding, one more message length chosen by VERIF_SEED (2..189), all contents", **_PAD)
